@@ -24,7 +24,7 @@ use std::{collections::HashMap, time::Duration};
 
 use crate::{
     config::Role,
-    error::{Error, NegotiationError, SubstreamError},
+    error::{NegotiationError, SubstreamError},
     multistream_select::{dialer_select_proto, listener_select_proto, Negotiated, Version},
     protocol::{Direction, Permit, ProtocolCommand, ProtocolSet, SubstreamKeepAlive},
     substream,
@@ -249,7 +249,18 @@ impl QuicConnection {
 
                         let substream = self.protocol_set.next_substream_id();
                         let protocols = self.protocol_set.protocols_with_keep_alives();
-                        let permit = self.protocol_set.try_get_permit().ok_or(Error::ConnectionClosed)?;
+                        let Some(permit) = self.protocol_set.try_get_permit() else {
+                            // Every protocol has already released the connection (keep-alive
+                            // expired) and it is about to be closed; the inbound substream arrived
+                            // before `protocol_set.next()` yields `None`. Close the connection the
+                            // regular way so that protocols and the manager are told.
+                            tracing::debug!(
+                                target: LOG_TARGET,
+                                peer = ?self.peer,
+                                "inbound substream on a connection that is closing, closing connection",
+                            );
+                            return self.protocol_set.report_connection_closed(self.peer, self.endpoint.connection_id()).await;
+                        };
                         let stream = NegotiatingSubstream::new(send_stream, receive_stream);
                         let substream_open_timeout = self.substream_open_timeout;
 
@@ -297,9 +308,22 @@ impl QuicConnection {
                             };
 
                             if let (Some(protocol), Some(substream_id)) = (protocol, substream_id) {
-                                self.protocol_set
-                                    .report_substream_open_failure(protocol, substream_id, error)
-                                    .await?;
+                                // The protocol may have been dropped by the user in the meantime.
+                                // That only concerns this substream: the connection keeps running
+                                // for the other protocols (leaving the loop here would skip
+                                // `report_connection_closed()`).
+                                if let Err(error) = self.protocol_set
+                                    .report_substream_open_failure(protocol.clone(), substream_id, error)
+                                    .await
+                                {
+                                    tracing::error!(
+                                        target: LOG_TARGET,
+                                        ?protocol,
+                                        peer = ?self.peer,
+                                        ?error,
+                                        "failed to register substream open failure to protocol",
+                                    );
+                                }
                             }
                         }
                         Ok(substream) => {
@@ -323,13 +347,24 @@ impl QuicConnection {
                                 self.protocol_set.protocol_codec(&protocol)
                             );
 
-                            self.protocol_set.report_substream_open(
+                            // If the protocol is gone (dropped by the user) the substream is
+                            // dropped with the failed send; the connection keeps running for the
+                            // other protocols.
+                            if let Err(error) = self.protocol_set.report_substream_open(
                                 self.peer,
-                                protocol,
+                                protocol.clone(),
                                 direction,
                                 substream,
                                 opening_permit,
-                            ).await?;
+                            ).await {
+                                tracing::error!(
+                                    target: LOG_TARGET,
+                                    ?protocol,
+                                    peer = ?self.peer,
+                                    ?error,
+                                    "failed to register opened substream to protocol",
+                                );
+                            }
                         }
                     }
                 }
